@@ -13,6 +13,7 @@ import PhreeqcVerif.Model.GasPhase
          -> R <vm> <bsum> <asum> {<x> <pr_p> <pr_phi> <pr_si_f>}*n <total_p>  |   R early
     eos <P> <TK> <Vm> <n> {<hexname> <moles>}*n   independent EOS evaluation for the relations on real runs
          -> E <P(Vm)> <Vm(P)> <disct(P)> <branch> {<x> <lnphi raw at (P,Vm)> <z-B>}*n
+    symtab              -> SYM true|false   (`symmetricTab` on the kij entries given so far)
     ideal <n> <TK> <V>  -> I <P>
 doubles are 16 hex digits of the bit pattern. -/
 namespace Driver.Gas
@@ -103,6 +104,7 @@ def step (st : St) (line : String) : St × Option String :=
     | some it, some vol, some tk, some pairs => (st, some (doPRN st it vol tk pairs))
     | _, _, _, _ => (st, some "bad-op")
   | ["fresh"] => (st, none)
+  | ["symtab"] => (st, some s!"SYM {symmetricTab st.tab}")
   | "eos" :: p :: tk :: vm :: _n :: rest =>
     match floatOfHex p, floatOfHex tk, floatOfHex vm, parsePairs rest with
     | some p, some tk, some vm, some pairs => (st, some (doEOS st p tk vm pairs))
